@@ -7,7 +7,7 @@
 (* deviation is a predicate on the event.                                        *)
 EXTENDS Kernels
 
-KnownIds == {"C14-KF3", "C14-KF6", "C14-KF9", "C14-KF10", "C14-KF11", "C14-KF12"}
+KnownIds == {"C14-KF3", "C14-KF6"}
 
 (* C14-KF1: io::simd_memory::search::sse42_strstr_short loads 16 bytes at every offset     *)
 (* although fewer than 16 bytes of the haystack remain: with the haystack ending at a page   *)
